@@ -158,16 +158,6 @@ impl vstd::std_specs::cmp::PartialEqSpecImpl for FilterHeader {
 }
 
 #[verifier::external_body]
-pub struct BlockHeader { _p: u8 }
-impl Clone for BlockHeader { #[verifier::external_body] fn clone(&self) -> (r: Self) ensures r == *self { unimplemented!() } }
-impl Copy for BlockHeader {}
-impl PartialEq for BlockHeader { #[verifier::external_body] fn eq(&self, other: &Self) -> (r: bool) { unimplemented!() } }
-impl vstd::std_specs::cmp::PartialEqSpecImpl for BlockHeader {
-    open spec fn obeys_eq_spec() -> bool { true }
-    open spec fn eq_spec(&self, other: &Self) -> bool { *self == *other }
-}
-
-#[verifier::external_body]
 pub struct ChannelId { _p: u8 }
 impl Clone for ChannelId { #[verifier::external_body] fn clone(&self) -> (r: Self) ensures r == *self { unimplemented!() } }
 impl PartialEq for ChannelId { #[verifier::external_body] fn eq(&self, other: &Self) -> (r: bool) { unimplemented!() } }
